@@ -25,13 +25,37 @@ CHECK_DEADLOCK FALSE
 """
 
 
+ORDER = {"k": 0}
+
+
 def series(a, dt):
+    """all six measures on ONE object, in an order that varies from call to call, each evaluated twice (the second
+    value is kept): measures must not disturb each other or the object; every third object has a history (it held
+    another record whose measures were evaluated)"""
+    import itertools
     import eqsig
     from eqsig import im
-    s = eqsig.AccSignal(a, dt)
-    return {"arias": im.calc_arias_intensity(s), "cav": im.calc_cav(s), "isv": im.calc_isv(s),
-            "ia": im.calc_integral_of_abs_acceleration(s), "iv": im.calc_integral_of_abs_velocity(s),
-            "uke": im.calc_unit_kinetic_energy(s)}
+    fns = {"arias": im.calc_arias_intensity, "cav": im.calc_cav, "isv": im.calc_isv, "ia": im.calc_integral_of_abs_acceleration,
+           "iv": im.calc_integral_of_abs_velocity, "uke": im.calc_unit_kinetic_energy}
+    ORDER["k"] += 1
+    k = ORDER["k"]
+    if k % 3 == 0 and len(a) >= 2:
+        af = np.asarray(a, dtype=float)
+        s = eqsig.AccSignal(af[::-1] * 1.3 + 0.2, dt)
+        for f in fns.values():
+            f(s)
+        s.reset_values(a)
+    else:
+        s = eqsig.AccSignal(a, dt)
+    order = list(itertools.permutations(MEAS))[(k * 37) % 720]
+    out = {}
+    for m in order:
+        out[m] = fns[m](s)
+    for m in order[::-1]:
+        out[m] = np.array(fns[m](s))
+    if k % 2:
+        out["iv"] = np.array(im.calc_cumulative_abs_displacement(s))
+    return out
 
 
 def cavdp(a, dt):
